@@ -33,8 +33,10 @@ type ScriptStep struct {
 }
 
 type BBeh struct {
-	Outcomes []Outcome    `json:"outcomes"`
-	Script   []ScriptStep `json:"script"`
+	Outcomes []Outcome `json:"outcomes"`
+	// OutcomesB: what item "b" returns (empty: "b" always succeeds)
+	OutcomesB []Outcome    `json:"outcomesB"`
+	Script    []ScriptStep `json:"script"`
 }
 
 type BLine struct {
@@ -80,7 +82,7 @@ func runBackoff(t *testing.T, tr *vh.Trace, tid string, beh BBeh, concurrency ui
 
 		emit(BLine{Ev: "reset"})
 
-		next := 0
+		next, nextB := 0, 0
 
 		probe := &rt.QProbe{
 			NameV:       "probe",
@@ -94,6 +96,11 @@ func runBackoff(t *testing.T, tr *vh.Trace, tid string, beh BBeh, concurrency ui
 				if ptr.ID() == "a" && next < len(beh.Outcomes) {
 					o = beh.Outcomes[next]
 					next++
+				}
+
+				if ptr.ID() == "b" && nextB < len(beh.OutcomesB) {
+					o = beh.OutcomesB[nextB]
+					nextB++
 				}
 
 				emit(BLine{Ev: "rec", ID: ptr.ID(), T: now(), O: o.O, D: o.D})
@@ -159,9 +166,19 @@ func runBackoff(t *testing.T, tr *vh.Trace, tid string, beh BBeh, concurrency ui
 
 		// let the outcome sequence play out (each retry comes after at most 90 s), then a long quiet period: every pending
 		// retry must have fired
-		for range len(beh.Outcomes)/5 + 1 {
+		touchedB := false
+
+		for _, s := range beh.Script {
+			touchedB = touchedB || s.Tb == 1
+		}
+
+		for range (len(beh.Outcomes)+len(beh.OutcomesB))/5 + 1 {
 			mu.Lock()
 			left := len(beh.Outcomes) - next
+
+			if touchedB {
+				left += len(beh.OutcomesB) - nextB
+			}
 			mu.Unlock()
 
 			if left <= 0 {
